@@ -23,11 +23,24 @@ def impl_diff(a, b):
             return ('err', exc_class(e), str(e)[:200]), memo
 
 
+class Raised:
+    def __init__(self, name):
+        self.name = name
+
+
 def impl_patch(a, d):
+    """the diff object is applied twice: ('ok', first result, second result, diff serialises the same afterwards)"""
     import nbdime
     from nbdime.diff_utils import to_diffentry_dicts
     try:
-        return ('ok', plain(nbdime.patch(copy.deepcopy(a), to_diffentry_dicts(copy.deepcopy(d)))))
+        dd = to_diffentry_dicts(copy.deepcopy(d))
+        before = json.dumps(plain(dd), sort_keys=True)
+        r1 = plain(nbdime.patch(copy.deepcopy(a), dd))
+        try:
+            r2 = plain(nbdime.patch(copy.deepcopy(a), dd))
+        except Exception as e:
+            r2 = Raised(type(e).__name__)
+        return ('ok', r1, r2, before == json.dumps(plain(dd), sort_keys=True))
     except Exception as e:
         return ('err', exc_class(e), str(e)[:200])
 
@@ -149,6 +162,10 @@ def check_cases(ctx, cases, record_mismatch=True):
             ctx.violation('nbdime.patch(a, diff(a,b)) != b', dict(base, kind='roundtrip', diff=enc_diff(d), got=enc(ip[1])))
         elif 'ok' in m_patch and canon(dec(m_patch['ok'])) != canon(ip[1]):
             mismatches.append(dict(base, kind='corr-patch', impl=enc(ip[1]), model=m_patch))
+        if ip[0] == 'ok' and canon(ip[1]) == canon(b) and (not ip[3] or isinstance(ip[2], Raised) or canon(ip[2]) != canon(b)):
+            ctx.violation('the diff no longer describes a -> b after nbdime.patch applied it once (%s)' %
+                          ('second application: %s' % ('raised ' + ip[2].name if isinstance(ip[2], Raised) else 'different document') if ip[3] else 'it serialises differently'),
+                          dict(base, kind='reapply', diff=enc_diff(d)))
         if not d and canon(a) != canon(b):
             ctx.violation('empty diff for documents that serialise differently', dict(base, kind='empty-diff', got=enc(a)))
         # --- correspondence model <-> code -----------------------------------------------------------
